@@ -637,6 +637,9 @@ func (fc *FnCtx) load(st *State, loc *Loc) V {
 	v := V{Ty: loc.Ty}
 	if loc.Kind == locField && strings.HasPrefix(loc.S, "glob:") {
 		if k, ok := fc.e.errGlobals[loc.S]; ok {
+			if fc.e.extErrGlobals[loc.S] {
+				fc.assumptions["error variable "+strings.TrimPrefix(loc.S, "glob:")+" of another package is a constant: initialised to a distinct non-nil value and never reassigned"] = true
+			}
 			return fc.errGlobal(k, loc.Ty)
 		}
 	}
